@@ -330,8 +330,8 @@ func leanStr(s string) string {
 			b.WriteString("\\n")
 		case r == '\t':
 			b.WriteString("\\t")
-		case r < 32 || r > 126:
-			b.WriteString(fmt.Sprintf("\\u{%x}", r))
+		case r < 32 || r == 127:
+			b.WriteString(fmt.Sprintf("\\x%02x", r))
 		default:
 			b.WriteRune(r)
 		}
